@@ -7,18 +7,17 @@
 (* vectors), and TLC validates the recorded results against the scalar     *)
 (* laws of Laws.tla (Mode = "check").                                      *)
 (***************************************************************************)
-EXTENDS Laws, TLC, Json, IOUtils
+EXTENDS Laws, TLC, Json, IOUtils, SeqUtil
 
 CONSTANTS Mode, Level      \* Level 1: quick grids, 2: thorough grids
 
-RECURSIVE SetToSeq(_)
-SetToSeq(S) == IF S = {} THEN <<>> ELSE LET x == CHOOSE x \in S : TRUE IN <<x>> \o SetToSeq(S \ {x})
+SetToSeq(S) == ToSeq(S)
 P(s) == RParse(s)
 Big == Level >= 2
 
 -----------------------------------------------------------------------------
 (* value sets (strings; boundaries, ties and both sides of every min / max / if) *)
-Rho    == IF Big THEN {"0", "1e-9", "12.5", "30", "33.5", "60.25", "120", "180"} ELSE {"0", "12.5", "33.5", "60.25", "180"}
+Rho    == IF Big THEN {"0", "1e-9", "12.5", "30", "33.5", "33.51", "60.25", "120", "180"} ELSE {"0", "12.5", "33.5", "33.51", "60.25", "180"}
 V      == IF Big THEN {"0", "1e-9", "3", "20.5", "61.1", "62", "102", "130"} ELSE {"0", "3", "20.5", "62", "102"}
 W      == IF Big THEN {"0", "0.5", "10", "100"} ELSE {"0", "10", "100"}
 Dem    == IF Big THEN {"0", "150", "1500", "3000", "12000"} ELSE {"0", "1500", "12000"}
@@ -29,9 +28,9 @@ RhoCr  == IF Big THEN {"30", "33.5"} ELSE {"33.5"}
 Ts     == IF Big THEN {"1/360", "1/720"} ELSE {"1/360"}
 Qdes   == IF Big THEN {"0", "400", "1800", "5000", "inf"} ELSE {"0", "1800", "inf"}
 VCtl   == IF Big THEN {"0", "4", "50", "61.1", "90", "inf"} ELSE {"0", "4", "50", "90", "inf"}
-As     == IF Big THEN {"1.867", "2", "1.5"} ELSE {"1.867", "2"}
+As     == IF Big THEN {"1.867", "2", "1.5", "0.8", "0.3"} ELSE {"1.867", "2", "0.8", "0.3"}   \* 0.3: exp(-1/a) below the ratio guard
 VFree  == {"102"}
-Lanes  == IF Big THEN {"1", "2", "3"} ELSE {"2", "3"}
+Lanes  == IF Big THEN {"1", "2", "3", "2.5"} ELSE {"2", "3", "2.5"}
 
 Grid(prim) ==
   CASE prim = "get_flow" -> [rho : Rho, v : V, lanes : Lanes]
@@ -62,6 +61,21 @@ VecArgs(prim) == CASE prim = "get_flow" -> {"rho", "v"} [] prim = "step_density"
 PatSet(pat, n) == CASE pat = "all" -> 1..n [] pat = "first" -> {1} [] pat = "last" -> {n} [] pat = "outer" -> {1, n}
                     [] OTHER -> {i \in 1..n : i >= n - 1}
 
+\* seeded random points inside the admissible box of every argument (thin regions are only met by chance: the more the better)
+Box(arg) == CASE arg \in {"rho", "rho_first", "rho_last", "rho_down", "rho_destination"} -> <<"0", "180">>
+              [] arg \in {"v", "v_up", "v_first", "v_ctrl", "Veq"} -> <<"0", "130">> [] arg = "w" -> <<"0", "100">>
+              [] arg = "d" -> <<"0", "4000">> [] arg \in {"q", "q_up", "qdes", "q_ramp"} -> <<"0", "4500">> [] arg = "r" -> <<"0", "1">>
+              [] arg = "C" -> <<"500", "3000">> [] arg = "rho_max" -> <<"180", "180">> [] arg = "rho_crit" -> <<"25", "40">>
+              [] arg = "a" -> <<"0.25", "2.5">> [] arg = "v_free" -> <<"90", "120">> [] arg \in {"lanes", "lanes_drop"} -> <<"1", "4">>
+              [] arg = "L" -> <<"0.5", "1.5">> [] arg = "tau" -> <<"0.002", "0.01">> [] arg = "eta" -> <<"30", "70">>
+              [] arg = "kappa" -> <<"10", "45">> [] arg = "T" -> <<"1/360", "1/360">> [] arg = "delta" -> <<"0.005", "0.03">>
+              [] arg = "phi" -> <<"0.5", "3">> [] arg = "alpha" -> <<"0", "0.2">> [] arg = "x" -> <<"-50", "50">>
+              [] OTHER -> <<"0", "1">>
+Rand(prim, pt, k) ==     \* the k-th random variation of grid point pt: categorical fields kept, numbers redrawn
+  [a \in DOMAIN pt |-> IF a \in {"type", "pat"} \/ pt[a] \in {"none", "inf"} THEN pt[a]
+                        ELSE RStr(RUnif(<<prim, k, a>>, RParse(Box(a)[1]), RParse(Box(a)[2])))]
+NRand == IF Big THEN 2000 ELSE 150
+
 \* node rules: sequences of 1..3 values
 NodeCases ==
   LET Q == <<"0", "1800", "3600", "900.5">>  Vs == <<"80", "0", "61.5", "102">>  B == <<"1", "3", "0.5", "2">>  R == <<"0", "20", "33.5", "90.25">>
@@ -80,10 +94,21 @@ Points(prim) == SetToSeq(Grid(prim))
 Stack(prim, pts, i, n) ==
   [a \in DOMAIN pts[i] |-> IF a \in VecArgs(prim) THEN [k \in 1..n |-> pts[((i + k - 2) % Len(pts)) + 1][a]] ELSE pts[i][a]]
 VARIABLE l
-Gen ==
+\* (with a parameter: TLC evaluates zero-arity constant-level definitions eagerly at start-up, in every mode)
+Gen(dummy) ==
   /\ \A prim \in ScalarPrims : LET pts == Points(prim) IN
        \A i \in DOMAIN pts : \A shape \in {"scalar", "vec1"} :
          PrintT("PCASE " \o ToJson([id |-> prim \o "-" \o shape \o "-" \o ToString(i), prim |-> prim, shape |-> shape, args |-> pts[i]]))
+  /\ \A prim \in ScalarPrims : LET pts == Points(prim) IN
+       \A k \in 1..NRand :
+         PrintT("PCASE " \o ToJson([id |-> prim \o "-rand-" \o ToString(k), prim |-> prim, shape |-> "vec1",
+                                    args |-> Rand(prim, pts[((k * 7919) % Len(pts)) + 1], k)]))
+  /\ \A prim \in VectorPrims \ {"controlled_Veq"} : LET pts == Points(prim) IN
+       \A k \in 1..NRand :
+         PrintT("PCASE " \o ToJson([id |-> prim \o "-rand4-" \o ToString(k), prim |-> prim, shape |-> "vec4",
+                                    args |-> LET base == pts[((k * 7919) % Len(pts)) + 1] IN
+                                      [a \in DOMAIN base |-> IF a \in VecArgs(prim) THEN [j \in 1..4 |-> Rand(prim, base, 4 * k + j)[a]]
+                                                             ELSE Rand(prim, base, k)[a]]]))
   /\ \A prim \in VectorPrims : LET pts == Points(prim) IN
        \A i \in DOMAIN pts : \A n \in {1, 3} :
          PrintT("PCASE " \o ToJson([id |-> prim \o "-vec" \o ToString(n) \o "-" \o ToString(i), prim |-> prim,
@@ -140,7 +165,7 @@ Expect(c, k, n) ==
        [] prim = "vcat" -> [v |-> P((a.a \o a.b)[k]), s |-> Zero]
 
 OutLen(c) == CASE c.prim = "vcat" -> Len(c.args.a) + Len(c.args.b)
-               [] c.prim \in VectorPrims -> (IF c.shape = "vec3" THEN 3 ELSE 1)
+               [] c.prim \in VectorPrims -> (IF c.shape = "vec3" THEN 3 ELSE IF c.shape = "vec4" THEN 4 ELSE 1)
                [] OTHER -> 1
 
 \* C17 for the origin-flow primitives: admissible arguments (all grids are admissible: non-negative, r <= 1, rho_first <= rho_max)
@@ -172,7 +197,7 @@ Verdict(c) ==
   IN [id |-> c.id, prim |-> c.prim, fails |-> Eng("np", c.obs.np) \cup Eng("cs", c.obs.cs) \cup both \cup model]
 
 Init == l = 1
-Next == IF Mode = "gen" THEN l = 1 /\ Gen /\ l' = 2
+Next == IF Mode = "gen" THEN l = 1 /\ Gen(l) /\ l' = 2
         ELSE /\ l <= Len(Trace)
              /\ PrintT("VERDICT " \o ToJson(Verdict(Trace[l])))
              /\ l' = l + 1
